@@ -42,7 +42,7 @@ def c11(work, tier, seed):
                                "Teardown.tla: resources of one tunnel, every ending cause, release steps; safety invariants and the liveness property 'ending ~> everything released' under weak fairness, for both transports "
                                "(design). Conformance on the real binary: every point of the exchange (before handshake .. data flowing) x every way of ending (CLOSE_CHANNEL, out-of-order packet, unframeable bytes, TCP close or reset of the "
                                "websocket / legacy IN / legacy OUT connection) x data in flight (none, client->host, host->client, both) on both transports; observed within 3 s: EOF at the loopback host, EOF on every client "
-                               "connection, proc.exit / relay.exit / unreg hooks, goroutine census of the protocol package, rdpgw_*_connections gauges", jobs=16)
+                               "connection, proc.exit / relay.exit / unreg hooks, goroutine census of the protocol package, rdpgw_*_connections gauges", jobs=32)
     return out
 
 
@@ -137,6 +137,8 @@ def c10(work, tier, seed):
             for ci, (a, tls, buf) in enumerate(combos):
                 for tr in ("ws", "legacy"):
                     phs = phases if tier == "thorough" else [phases[(stable_hash(cls + a + tr) + ci) % 5], "init"]
+                    if cls.startswith("data-"):
+                        phs = list(phs) + ["channel"]   # payload classes matter where payload is relayed
                     for ph in sorted(set(phs)):
                         add(ep, cls, cfg(a, tls, buf), tr, ph)
                     # the same input from a client that has stopped reading while its host keeps sending
